@@ -1,3 +1,20 @@
-From TM Require Import Base Frame.
-Theorem C12_placeholder : fc_value (fc_new 1) = 1.
-Proof. reflexivity. Qed.
+(* C12 -- a failed call never desynchronises the calls that follow it. *)
+From TM Require Import Base Frame Pdu RtuCodec Framed Client FramedProofs ClientProofs Histories.
+
+(* invariant: whatever happened in earlier calls (success, exception, mismatch, decoding error, read
+   error, abandonment), a call starts with no latched framing error *)
+Theorem C12_clean_start : forall p m ops st, clean st -> clean (run_ops p m st ops).
+Proof. exact history_clean. Qed.
+Theorem C12_call_preserves_clean : forall p m st req bg, clean st -> clean (snd (call p m st req bg)).
+Proof. exact call_preserves_clean. Qed.
+
+(* on a clean client whose transport is not at end of stream: once the request has been written and
+   the transport delivers the matching reply (any chunking, any surplus after it, any stale bytes in
+   the receive buffer -- they are cleared), the call consumes exactly that reply and returns it *)
+Theorem C12_exchange : forall p m st req bg f rr cs rest w bg1,
+  framed st = true -> clean st -> reof (rst st) = false ->
+  send (client_enc p m (req_hdr p st) req) (wio_ st) bg = (SOk, w, bg1, false) ->
+  rq st = datas cs -> Forall nonempty cs -> concat cs = f ++ rest -> client_valid p f (req_hdr p st, rr) ->
+  fc_value (rr_fc rr) = fc_value (req_fc req) ->
+  fst (call p m st req bg) = match rr with RROk r => CROk r | RRExc e => CRExc (exr_exception e) end.
+Proof. exact exchange_returns_reply. Qed.
